@@ -81,3 +81,109 @@ Proof.
   - exact (proj1 (forallb_forall map_free _) MF t H).
   - exact (proj1 (forallb_forall no_opt_enum _) NOE t H).
 Qed.
+
+(* ---- second round (auditor): the block response layer *)
+Lemma pair_fst {A B} (p : A * B) a b : p = (a, b) -> fst p = a.
+Proof. now intros ->. Qed.
+
+Lemma block_ok_total hdr entries :
+  fst (block_ok current hdr entries) <> Panic /\ fst (block_ok current hdr entries) <> OutOfFuel.
+Proof.
+  unfold block_ok.
+  assert (TH : forall bs, fst (run_decode current s_header bs) <> Panic /\
+                          fst (run_decode current s_header bs) <> OutOfFuel).
+  { intro bs. apply (total_schemas s_header bs). cbn. tauto. }
+  assert (TB := total_body (body_bytes entries)).
+  destruct hdr as [|x hr].
+  - destruct entries as [|e er]; [cbn; split; discriminate|].
+    destruct (dec_body current (body_bytes (e :: er))) as [[ | | | ] k]; cbn [fst] in *; cbn;
+      split; try discriminate; tauto.
+  - specialize (TH (x :: hr)).
+    destruct (run_decode current s_header (x :: hr)) as [[ | | | ] k]; cbn [fst] in *;
+      try (cbn; split; try discriminate; tauto).
+    destruct entries as [|e er]; [cbn; split; discriminate|].
+    destruct (dec_body current (body_bytes (e :: er))) as [[ | | | ] k2]; cbn [fst] in *; cbn;
+      split; try discriminate; tauto.
+Qed.
+
+(* BlockResponseMessage.Decode above the protobuf parse: a message or an error *)
+Lemma bresp_total blocks :
+  fst (bresp_decode current blocks) <> Panic /\ fst (bresp_decode current blocks) <> OutOfFuel.
+Proof.
+  induction blocks as [|[hdr entries] r IH]; [cbn; split; discriminate|].
+  cbn [bresp_decode]. pose proof (block_ok_total hdr entries) as T.
+  destruct (block_ok current hdr entries) as [[ | | | ] k]; cbn [fst] in *;
+    try (split; try discriminate; tauto).
+  destruct (bresp_decode current r) as [o k']. cbn [fst] in *. exact IH.
+Qed.
+
+Lemma block_view_ok hdr entries :
+  (exists x, block_view current hdr entries = Ok x) <-> fst (block_ok current hdr entries) = Ok tt.
+Proof.
+  unfold block_view, block_ok, decode_res.
+  destruct hdr as [|x hr].
+  - destruct entries as [|e er]; [cbn; split; [reflexivity|eauto]|].
+    destruct (dec_body current (body_bytes (e :: er))) as [[[v rest] | | | ] k]; cbn [fst];
+      split; intro H; try discriminate; try (destruct H as [? H]; discriminate); eauto.
+  - destruct (run_decode current s_header (x :: hr)) as [[[v rest] | | | ] k]; cbn [fst];
+      try (split; intro H; try discriminate; destruct H as [? H]; discriminate).
+    destruct entries as [|e er]; [split; [reflexivity|eauto]|].
+    destruct (dec_body current (body_bytes (e :: er))) as [[[v2 rest2] | | | ] k2]; cbn [fst];
+      split; intro H; try discriminate; try (destruct H as [? H]; discriminate); eauto.
+Qed.
+
+(* the view (what Decode returns) exists exactly when the decoder succeeds, and has one entry
+   per block *)
+Lemma bresp_view_ok blocks :
+  (exists l, bresp_view current blocks = Ok l /\ length l = length blocks) <->
+  fst (bresp_decode current blocks) = Ok tt.
+Proof.
+  induction blocks as [|[hdr entries] r IH]; [cbn; split; [reflexivity|intros _; now exists []]|].
+  cbn [bresp_view bresp_decode]. pose proof (block_view_ok hdr entries) as B.
+  destruct (block_ok current hdr entries) as [[[] | | | ] k] eqn:E; cbn [fst] in *.
+  - destruct (proj2 B eq_refl) as [x ->].
+    destruct (bresp_decode current r) as [o k']. cbn [fst] in *. split.
+    + intros (l & H & L). destruct (bresp_view current r) as [l'| | | ]; try discriminate.
+      apply IH. exists l'. split; [reflexivity|]. injection H as <-. cbn in L. lia.
+    + intro H. destruct (proj2 IH H) as (l' & -> & L'). exists (x :: l'). split; [reflexivity|]. cbn. lia.
+  - split; [|discriminate]. intros (l & H & _).
+    destruct (block_view current hdr entries) as [p| | | ] eqn:V; try discriminate.
+    assert (X : exists x, Ok p = Ok x) by eauto. apply B in X. discriminate.
+  - split; [|discriminate]. intros (l & H & _).
+    destruct (block_view current hdr entries) as [p| | | ] eqn:V; try discriminate.
+    assert (X : exists x, Ok p = Ok x) by eauto. apply B in X. discriminate.
+  - split; [|discriminate]. intros (l & H & _).
+    destruct (block_view current hdr entries) as [p| | | ] eqn:V; try discriminate.
+    assert (X : exists x, Ok p = Ok x) by eauto. apply B in X. discriminate.
+Qed.
+
+(* block requests: a start hash is always 32 bytes; a start number comes from exactly 4 bytes and
+   is below 2^32; the requested-data and direction fields are single bytes *)
+Lemma breq_shape fields from dir maxb data start d mx :
+  breq_decode fields from dir maxb = Some (data, start, d, mx) ->
+  data < 256 /\ d < 256 /\ (mx = None <-> maxb = 0) /\
+  match start with
+  | StartHash h => length h = 32%nat
+  | StartNumber n => n < 4294967296
+  end.
+Proof.
+  unfold breq_decode.
+  assert (B : forall x, N.land x 255 < 256).
+  { intro x. rewrite land255_mod. apply N.mod_lt. lia. }
+  assert (MX : (if maxb =? 0 then None else Some maxb) = None <-> maxb = 0).
+  { destruct (N.eqb_spec maxb 0) as [E|E]; split; intro X;
+      [exact E|reflexivity|discriminate X|contradiction]. }
+  pose proof (B (N.shiftr fields 24)) as B1. pose proof (B dir) as B2.
+  remember (N.land (N.shiftr fields 24) 255) as x1 eqn:E1.
+  remember (N.land dir 255) as x3 eqn:E3.
+  remember (if maxb =? 0 then None else Some maxb) as x4 eqn:E4.
+  destruct from as [b|b|]; [| |discriminate].
+  - assert (L : length (bytes_to_hash b) = 32%nat).
+    { unfold bytes_to_hash, pad_front, zeros. rewrite app_length, repeat_length, skipn_length. lia. }
+    remember (bytes_to_hash b) as x2 eqn:E2.
+    intro H. injection H as <- <- <- <-. repeat split; try assumption; apply MX.
+  - destruct (Nat.eqb_spec (length b) 4) as [L|L]; [|discriminate].
+    pose proof (le_val_lt b) as LT. rewrite L in LT. change (256 ^ N.of_nat 4) with 4294967296 in LT.
+    remember (le_val b) as x2 eqn:E2.
+    intro H. injection H as <- <- <- <-. repeat split; try assumption; apply MX.
+Qed.
